@@ -23,7 +23,7 @@ LEVEL_TEXT = (
 )
 LEVEL_NOTE = (
     "Trusted: numpy dense algebra for the embeddings, the complete-basis run of the library as reference (its own "
-    "correctness is C01-C05). Tolerance 1e-8 x magnitude x cond(R) for the direct solver. Bounds: n <= 10, orders <= 3."
+    "correctness is C01-C05). Tolerance max(1e-8 x magnitude, 1e-13 x largest element so far x |H_0|) x cond(R) for the direct solver. Bounds: n <= 10, orders <= 3."
 )
 TECHNIQUE = "differential property-based testing (Hypothesis): implicit vs complete-eigenbasis runs of block_diagonalize"
 BUDGET = {"quick": 480, "thorough": 12000}
@@ -60,6 +60,8 @@ def _case(draw, tier):
         "sparse_pert": draw(st.booleans()),
         "selection": draw(st.sampled_from(["none", "none", "full", "mask"])),
         "mask_salt": draw(st.integers(0, 1000)),
+        # perturbations of very different strength (factor 2^-10): iterative solves then need different numbers of steps
+        "pert_scale": [draw(st.sampled_from([0, 0, -10])) for _ in range(k)],
     })
     return base
 
@@ -99,7 +101,7 @@ def build_inputs(case, out=None):
             A = (A + A.conj().T) / 2
         if not c["complex"]:
             A = A.real.copy()
-        pert.append(A)
+        pert.append(A * 2.0 ** c.get("pert_scale", [0] * k)[len(pert)])
     if not c["complex"]:
         H0 = np.real_if_close(H0)
     wrap = (lambda A: sparse.csr_array(A))
@@ -198,6 +200,25 @@ def check_case(case, enforce_all=False):
                 return v.toarray().astype(complex)
             return np.asarray(v, dtype=complex)
 
+        gmax = [1.0]
+        emax = max(1.0, float(np.abs(np.asarray(B_["E"], dtype=complex)).max()))
+
+        def biggest(order):
+            """largest element of the complete-basis results at this order (all series, all blocks)"""
+            m = 0.0
+            for name_ in ("H_tilde", "U", "U_inv"):
+                for i_ in range(nb):
+                    for j_ in range(nb):
+                        try:
+                            v = full[name_][(i_, j_) + order]
+                        except Exception:  # noqa: BLE001  (reported by the main loop)
+                            continue
+                        if v is zero or v is one:
+                            continue
+                        v = v.toarray() if sparse.issparse(v) else np.asarray(v)
+                        m = max(m, float(np.abs(v).max()) if v.size else 0.0)
+            return m
+
         for order in orders_upto(k, K):
             for name in ("H_tilde", "U", "U_inv"):
                 for i in range(nb):
@@ -231,6 +252,11 @@ def check_case(case, enforce_all=False):
                             out.fail("shape", f"{name}[{i},{j},{list(order)}]: implicit shape {ad.shape}, embedded explicit shape {emb.shape}")
                             return out
                         scale = max(1.0, float(np.abs(emb).max()))
+                        # rounding floor: an element that is small itself is still the result of cancellations between
+                        # intermediates as large as the largest element computed so far times |H_0| (near-degenerate
+                        # explicit levels give U_n ~ gap^-n), so the absolute error cannot be below ~ eps x that
+                        gmax[0] = max(gmax[0], float(np.abs(emb).max()) if emb.size else 0.0, biggest(order))
+                        floor = 1e-13 * gmax[0] * emax * cond
                         dev = float(np.abs(ad - emb).max()) if emb.size else 0.0
                         warned = any(issubclass(w.category, RuntimeWarning) and "KPM" in str(w.message) for w in wlist)
                         if kpm:
@@ -239,7 +265,7 @@ def check_case(case, enforce_all=False):
                                 out.labels.append("kpm-convergence-warning")
                                 continue
                         else:
-                            tol = 1e-8 * scale * cond
+                            tol = max(1e-8 * scale * cond, floor)
                         if not np.isfinite(dev) or dev > tol:
                             out.fail(
                                 "implicit-differs" if not kpm else "kpm-differs",
